@@ -11,6 +11,9 @@ from .boot import MODULE_ROOTS
 SHARED = {}      # id -> number of cached models it is reachable from
 STATE = {'sched': None, 'hits': 0, 'sites': {}, 'installed': 0, 'walked': {}}
 _ATOMIC = (str, bytes, int, float, bool, type(None), complex)
+import collections as _collections
+_CONTAINER_TYPES = (list, dict, set, _collections.OrderedDict, _collections.defaultdict, _collections.deque)
+MAX_CLASS_POPULATION = 64     # data-structure nodes (trie Node: 4e4 per model) are not watched
 
 
 def _lib_class(cls):
@@ -59,8 +62,9 @@ def _barrier_setattr(self, name, value):
                 sched.barrier_hit(client, f)
 
 
-def walk(root, into):
-    """Add ids of all library-class instances reachable from root."""
+def walk(root, into, conts=None):
+    """Add ids of all library-class instances reachable from root. If `conts` is a list, also collect
+    (class, container) pairs for the list/dict/set attributes of those instances."""
     stack = [root]
     seen = set()
     n = 0
@@ -85,6 +89,10 @@ def walk(root, into):
         n += 1
         d = getattr(o, '__dict__', None)
         if d:
+            if conts is not None:
+                for v in d.values():
+                    if type(v) in _CONTAINER_TYPES:
+                        conts.append((cls, v))
             stack.extend(d.values())
     return n
 
@@ -98,10 +106,116 @@ def on_cache_insert(model):
     if id(model) in OWN:
         return
     ids = set()
-    walk(model, ids)
+    pairs = []
+    walk(model, ids, pairs)
     OWN[id(model)] = (model, ids)
     for i in ids:
         SHARED[i] = SHARED.get(i, 0) + 1
+    pop = {}
+    for cls, c in pairs:
+        pop[cls] = pop.get(cls, 0) + 1
+    seen = set()
+    watch = []
+    for cls, c in pairs:
+        if pop[cls] <= MAX_CLASS_POPULATION * 8 and id(c) not in seen:
+            seen.add(id(c))
+            watch.append(c)
+    WATCH[id(model)] = watch
+    rebase()
+
+
+WATCH = {}          # id(model) -> containers (list/dict/set attributes of its library objects)
+CLASS_WATCH = []    # class-level containers of library classes (process-wide caches live there)
+FP = {'base': 0, 'flat': [], 'dirty_probes': 0, 'rebased': 0, 'hits': 0}
+
+
+def _class_containers():
+    out = []
+    seen = set()
+    for mname, m in list(sys.modules.items()):
+        if mname.split('.')[0] not in MODULE_ROOTS or m is None:
+            continue
+        for v in list(vars(m).values()):
+            if isinstance(v, type) and _lib_class(v) and v not in seen:
+                seen.add(v)
+                if '.resources.' in (v.__module__ or ''):
+                    continue        # generated static tables
+                for k, a in list(vars(v).items()):
+                    if type(a) in _CONTAINER_TYPES and not (k.startswith('__') and k.endswith('__')):
+                        out.append(a)
+    return out
+
+
+BOOT = {'snap': None}
+
+
+def _module_containers():
+    out = []
+    for mname, m in list(sys.modules.items()):
+        if mname.split('.')[0] not in MODULE_ROOTS or m is None or '.resources.' in mname or mname.endswith('.resources'):
+            continue
+        for k, a in list(vars(m).items()):
+            if type(a) in _CONTAINER_TYPES and not (k.startswith('__') and k.endswith('__')):
+                out.append(a)
+    return out
+
+
+def snapshot_boot_state():
+    """Remember the contents of every class-level and module-level container of the library as they are right after
+    import: a simulated process restart puts them back (lazily filled process-wide tables start empty again)."""
+    if BOOT['snap'] is not None:
+        return len(BOOT['snap'])
+    if not CLASS_WATCH:
+        CLASS_WATCH.extend(_class_containers())
+    snap = []
+    seen = set()
+    for c in list(CLASS_WATCH) + _module_containers():
+        if id(c) in seen:
+            continue
+        seen.add(id(c))
+        snap.append((c, c.copy()))
+    BOOT['snap'] = snap
+    return len(snap)
+
+
+def restore_boot_state(skip=()):
+    """-> number of containers whose contents had changed since import and were put back."""
+    n = 0
+    skip_ids = {id(x) for x in skip}
+    for c, orig in BOOT['snap'] or ():
+        if id(c) in skip_ids:
+            continue
+        if len(c) != len(orig) or c != orig:
+            n += 1
+            c.clear()
+            if isinstance(c, (list, _collections.deque)):
+                c.extend(orig)
+            else:
+                c.update(orig)
+    return n
+
+
+def rebase():
+    """Recompute the watch list; the current container sizes become the reference for change detection."""
+    if not CLASS_WATCH:
+        CLASS_WATCH.extend(_class_containers())
+    flat = list(CLASS_WATCH)
+    for w in WATCH.values():
+        flat.extend(w)
+    FP['flat'] = flat
+    FP['prev'] = list(map(len, flat))
+    FP['base'] = sum(FP['prev'])
+
+
+def container_dirty():
+    """Did any watched shared container change size since the previous probe? (a fresh mutation of process-wide or
+    cached-model state: an insertion into a class-level table, a push onto a list parked on a shared parser, ...)"""
+    cur = list(map(len, FP['flat']))
+    if cur == FP['prev']:
+        return False
+    FP['prev'] = cur
+    FP['hits'] += 1
+    return True
 
 
 def on_evict(models):
@@ -112,6 +226,7 @@ def on_evict(models):
 def rebuild(cache, force=False):
     """Quiescent point: forget the models evicted since the last one (reference-counted, no re-walk of live models)."""
     for m in EVICTED:
+        WATCH.pop(id(m), None)
         ent = OWN.pop(id(m), None)
         if ent is None:
             continue
@@ -125,4 +240,5 @@ def rebuild(cache, force=False):
     STATE['dirty'] = False
     for m in cache.values():
         on_cache_insert(m)
+    rebase()
     return len(SHARED)
